@@ -8,6 +8,7 @@ from ..core import Law, HarnessError
 from ..oracles import tits as T
 
 from geometry_tools import coxeter
+from geometry_tools.automata import fsa
 from geometry_tools.automata.fsa import FSAException
 
 INF_CODES = [0, -1, -3]
@@ -99,6 +100,7 @@ class Setup:
         raw = case["matrix"]
         n = len(raw)
         self.n = n
+        self.case = case
         if case.get("ctor", "matrix") == "matrix":
             style = case.get("style", "alpha")
             kw = {} if style == "default" else {"generator_style": style}
@@ -117,6 +119,40 @@ class Setup:
                       got=list(self.G.ordered_gens), want=want)
             self.names = want
             self.m = T.normalise(raw)
+        elif case.get("ctor") == "subgroup":
+            # the group is the standard subgroup of a larger Coxeter group (one more generator,
+            # inserted at position pos, with its own labels), itself built from a matrix or a
+            # diagram: the same Coxeter matrix, reached through standard_subgroup
+            sg = case["subgroup"]
+            pos = sg["pos"] % (n + 1)
+            big = [[1] * (n + 1) for _ in range(n + 1)]
+            idx_small = [i for i in range(n + 1) if i != pos]
+            for a, i in enumerate(idx_small):
+                for b, j in enumerate(idx_small):
+                    big[i][j] = raw[a][b]
+            for a, i in enumerate(idx_small):
+                big[i][pos] = big[pos][i] = sg["extra"][a % len(sg["extra"])]
+            style = sg.get("style", "alpha")
+            all_names = [ALPHA[i] if style == "alpha" else "s%d" % i for i in range(n + 1)]
+            if sg.get("via") == "diagram":
+                parent = coxeter.CoxeterGroup(diagram=[
+                    (all_names[i], all_names[j], big[i][j])
+                    for i in range(n + 1) for j in range(i + 1, n + 1)])
+            else:
+                parent = coxeter.CoxeterGroup(matrix=np.array(big), generator_style=style)
+            nm = [all_names[i] for i in idx_small]
+            self.G = parent.standard_subgroup(list(nm) if sg.get("as_list", True) else set(nm))
+            og = list(self.G.ordered_gens)
+            ctx.check(sorted(og) == sorted(nm), "standard_subgroup: ordered_gens is the chosen "
+                      "generating set, each generator once", got=og, want=nm)
+            idx = {g: nm.index(g) for g in og}
+            perm = [[raw[idx[g]][idx[h]] for h in og] for g in og]
+            self.m = T.normalise(perm)
+            lib = T.normalise(np.array(self.G.coxeter_matrix).tolist())
+            ctx.check(lib == self.m, "standard_subgroup: coxeter_matrix is the restriction of the "
+                      "parent's matrix (in the order of ordered_gens)", got=lib, want=self.m)
+            self.names = og
+            ctx.label("ctor=standard_subgroup")
         else:
             nm = NAME_SETS[case["nameset"] % len(NAME_SETS)][:n]
             pairs = list(itertools.combinations(range(n), 2))
@@ -147,9 +183,24 @@ class Setup:
         self.width = len(self.names[0])
         self.tits = T.TitsOracle(self.m)
         self.type = T.coxeter_type(self.m)
+        if case.get("warm"):
+            # the group object has already been asked for its other automata (in particular
+            # the even-length ones) before the calls this case is about
+            ctx.label("group-object-already-queried")
+            for sl in (True, False):
+                base = self.G.automaton(shortlex=sl)
+                if len(list(base.vertices())) <= EVEN_MAX_BASE_STATES:
+                    self.G.automaton(shortlex=sl, even_length=True)
 
     def w(self, word):
         return [self.names[i] for i in word]
+
+    def automaton(self, shortlex):
+        """the automaton under test: generated from the matrix, or - for the Coxeter groups
+        whose automata are shipped with the library - the stored file"""
+        if self.case.get("builtin"):
+            return fsa.load_builtin(self.case["builtin"] + (".wa" if shortlex else ".geowa"))
+        return self.G.automaton(shortlex=shortlex)
 
     def full_L(self, L):
         """a small finite group is enumerated completely (and one step beyond its longest
@@ -218,8 +269,16 @@ def rank2_L(m):
 @st.composite
 def presentation(draw, n):
     """how the matrix is handed to the library"""
-    d = {}
-    if draw(st.integers(0, 2)) == 0:
+    d = {"warm": draw(st.integers(0, 3)) == 0}
+    k = draw(st.integers(0, 5))
+    if k == 5 and n <= 4:
+        d["ctor"] = "subgroup"
+        d["subgroup"] = dict(pos=draw(st.integers(0, n)),
+                             extra=[draw(st.sampled_from([2, 3, 4, 0, -1])) for _ in range(n)],
+                             style=draw(st.sampled_from(["alpha", "alphanum"])),
+                             via=draw(st.sampled_from(["matrix", "matrix", "diagram"])),
+                             as_list=draw(st.booleans()))
+    elif k <= 1:
         npairs = n * (n - 1) // 2
         d["ctor"] = "diagram"
         d["nameset"] = draw(st.integers(0, len(NAME_SETS) - 1))
@@ -390,7 +449,9 @@ def language_body(shortlex):
         S = Setup(case, ctx)
         L = S.full_L(case["L"])
         S.label(ctx, L)
-        aut = S.G.automaton(shortlex=shortlex)
+        aut = S.automaton(shortlex)
+        if case.get("builtin"):
+            ctx.label("builtin=" + case["builtin"], "nt")
         spheres = S.tits.ball(L + 1)
         stringy = S.width == 1
         n_in = n_out = 0
@@ -901,6 +962,24 @@ def exhaustive_cover(tier):
 
 
 # ---------------------------------------------------------------------------
+BUILTIN_COXETER = {
+    "cox334": [[1, 3, 4], [3, 1, 3], [4, 3, 1]],
+    "cox237": [[1, 2, 7], [2, 1, 3], [7, 3, 1]],
+    "cox3334": [[1, 3, 2, 4], [3, 1, 3, 2], [2, 3, 1, 3], [4, 2, 3, 1]],
+    "cox535": [[1, 5, 2, 2], [5, 1, 3, 2], [2, 3, 1, 5], [2, 2, 5, 1]],
+}
+
+
+def exhaustive_builtin(tier):
+    """the Coxeter automata shipped with the library (cox*.wa shortlex, cox*.geowa geodesic)
+    against the word problem of the group each file is named after"""
+    cases = []
+    for name, M in sorted(BUILTIN_COXETER.items()):
+        L = {3: (8, 11), 4: (6, 8)}[len(M)][0 if tier == "quick" else 1]
+        cases.append(dict(matrix=M, ctor="matrix", style="alpha", L=L, builtin=name))
+    return [("the 4 shipped Coxeter automata, all words up to length L", cases)]
+
+
 def _law(name, strategy, body, nontrivial, **kw):
     law = Law(name, strategy, body, nontrivial, **kw)
     law.ex_shards = {"quick": 4, "thorough": 16}
@@ -914,6 +993,8 @@ LAWS = [
          shards=(1, 4), exhaustive=exhaustive_domains()),
     _law("shortlex_language", coxeter_case(), language_body(True), nt, quick=40, thorough=300,
          shards=(1, 4), exhaustive=exhaustive_domains()),
+    _law("builtin_shortlex_files", None, language_body(True), nt, exhaustive=exhaustive_builtin),
+    _law("builtin_geodesic_files", None, language_body(False), nt, exhaustive=exhaustive_builtin),
     _law("one_word_per_element", coxeter_case(), body_one_word, nt, quick=40, thorough=300,
          shards=(1, 4), exhaustive=exhaustive_domains()),
     _law("even_variant", coxeter_case(), even_body("language"), nt, quick=40, thorough=300,
